@@ -311,6 +311,8 @@ type ProfileSpec struct {
 	Levels map[string][]string
 	// names listed under a level without an entry under `validations` (legal, ignored); used by the YAML tree emitter of gen_c15
 	Dangling map[string][]string
+	// atoms the YAML tree emitter writes as embedded Rego (gen_c15)
+	RegoAtoms map[int]bool
 }
 
 func compactClass(iri string) string { return "ex." + strings.TrimPrefix(iri, NS) }
